@@ -1,4 +1,5 @@
 import MahfModel.Model.Variation
+import MahfModel.Model.VariationState
 open MahfModel MahfModel.Sexp MahfModel.Variation
 
 namespace C13
@@ -682,6 +683,109 @@ def mutDefault (kind fail : Nat) (pops : List (List (List Nat))) (impl : Sexp) :
     | _ => false)
   pure (verdict (model.beq impl) holds "count" model)
 
+/-! ## Whole configurations on one State: `(state KIND SEED (pop ..) (run ITEM*)+)` -/
+
+def pkind? : String → Option PKind
+  | "normal" => some .normal | "uniform" => some .uniform | "bitflip" => some .bitflip
+  | "spread" => some .spread | "scramble" => some .scramble | "bits" => some .bits
+  | _ => none
+
+def ident? : String → Option Nat
+  | "g" => some 0 | "a" => some 1 | "b" => some 2
+  | _ => none
+
+/-- `(m ID P1 RM)`, `(scope ITEM*)`, `(loop K ITEM*)` → the model's configuration (fuel: one unit per item). -/
+def parseItems (kind : PKind) : Nat → List Sexp → Option (Cfg Float)
+  | 0, _ => none
+  | _, [] => some .done
+  | f + 1, .list [.atom "m", .atom id, p1, rm] :: rest => do
+    let c : PComp Float := ⟨kind, ← ident? id, toParam (← float? p1), toParam (← float? rm)⟩
+    pure (.leaf c (← parseItems kind f rest))
+  | f + 1, .list (.atom "scope" :: body) :: rest => do
+    pure (.scope (← parseItems kind f body) (← parseItems kind f rest))
+  | f + 1, .list (.atom "loop" :: k :: body) :: rest => do
+    pure (.loop (← nat? k) (← parseItems kind f body) (← parseItems kind f rest))
+  | _, _ => none
+
+/-- Bit-pattern equality of parameter values (NaN equals NaN). -/
+def paramEq (a b : Param Float) : Bool := (ofParam a).toBits == (ofParam b).toBits
+
+def paramFloat : Param Float → Float := ofParam
+
+def implTag {σ : Type} : Impl σ → String
+  | .ok _ _ _ => "ok" | .err _ => "err" | .panic => "panic"
+
+/-- One run: the executions the model predicts (what each instance READ from the registries) against the
+implementation's snapshots (K), and every executed instance against ITS OWN constructor values (O).
+`judge p1 rm inp impl` is the single-component verdict for the kind. Returns the verdict parts and the
+population after the run. -/
+def stateRun {σ : Type} (judge : Float → Float → List σ → Impl σ → Verdict) (wf : Bool)
+    (own : List (PComp Float)) (trace : List (Obs Float)) (impls : List (Impl σ)) (cur : List σ) :
+    Bool × Bool × String × List σ :=
+  let n := impls.length
+  let step := fun (acc : Bool × Bool × String × List σ) (j : Nat) =>
+    let (agree, holds, cls, cur) := acc
+    match impls[j]? with
+    | none => acc
+    | some impl =>
+      -- K: the parameters the model's registries hold for this execution
+      let k := match trace[j]? with
+        | some o =>
+          (match o.seen with
+           | some p => (judge (paramFloat p.strength) (paramFloat p.rate) cur impl).agree
+           | none => (match impl with | .panic => true | _ => false)) &&
+          outcomeTag o.out == implTag impl
+        | none => false
+      -- O: the instance's own parameters
+      let (h, c) := match own[j]? with
+        | some c =>
+          let v := judge (paramFloat c.strength) (paramFloat c.rate) cur impl
+          (v.holds || !wf, v.cls)
+        | none => (false, "count")
+      let cur' := match impl with | .ok _ _ pop => pop | _ => cur
+      (agree && k, holds && h, if holds && !h then c else cls, cur')
+  let (agree, holds, cls, cur) := (List.range n).foldl step (true, true, "-", cur)
+  (agree && trace.length == n, holds, cls, cur)
+
+def stateCase {σ : Type} (sol? : Sexp → Option σ) (judge : Float → Float → List σ → Impl σ → Verdict)
+    (kind : PKind) (pop : Sexp) (runs : List Sexp) (impl : Sexp) : Option Verdict := do
+  let inp ← popOf sol? pop
+  let cfgs ← runs.mapM fun r => do parseItems kind 100000 (← tagged? "run" r)
+  let wf := cfgs.all (·.wellFormedBy paramEq)
+  let (traces, _) := runAll cfgs ⟨[], []⟩
+  let implRuns ← (← tagged? "runs" impl).mapM fun r => do
+    match ← tagged? "run" r with
+    | .atom status :: snaps => do
+      let snaps ← snaps.mapM (parseImpl sol?)
+      let fail : List (Impl σ) := match status with | "ok" => [] | "err" => [.err "exec"] | _ => [.panic]
+      pure (status, snaps ++ fail)
+    | _ => none
+  let step := fun (acc : Bool × Bool × String × List σ × Bool) (i : Nat) =>
+    let (agree, holds, cls, cur, stopped) := acc
+    if stopped then acc else
+    match cfgs[i]?, traces[i]?, implRuns[i]? with
+    | some cfg, some trace, some (status, impls) =>
+      let (a, h, c, cur') := stateRun judge wf cfg.unroll trace impls cur
+      (agree && a, holds && h, if holds && !h then c else cls, cur', status == "panic")
+    | _, _, _ => (false, holds, cls, cur, true)       -- a run is missing although no panic stopped the harness
+  let (agree, holds, cls, _, _) := (List.range cfgs.length).foldl step (true, true, "-", inp, false)
+  let model := Sexp.list (.atom "runs" :: traces.map fun t => .list (.atom "run" :: t.map fun o =>
+    match o.seen with
+    | some p => .list [ofFloat (paramFloat p.strength), ofFloat (paramFloat p.rate), .atom (outcomeTag o.out)]
+    | none => .atom "missing"))
+  pure (verdict agree holds cls model)
+
+def stateDispatch (args : List Sexp) (impl : Sexp) : Option Verdict :=
+  match args with
+  | .atom kind :: _ :: pop :: runs => do
+    let k ← pkind? kind
+    match kind with
+    | "normal" | "uniform" => stateCase floats? (fun p1 rm => realMutation kind p1 0 rm) k pop runs impl
+    | "spread" => stateCase floats? (fun _ rm => realMutation "spread" (-5.0) 5.0 rm) k pop runs impl
+    | "bitflip" | "bits" => stateCase bools? (fun p rm => bitMutation kind p rm) k pop runs impl
+    | _ => stateCase nats? (fun _ rm => permMutation "scramble" 0 rm) k pop runs impl
+  | _ => none
+
 def c13Ext (component : String → List Sexp → Sexp → Option Verdict) (tag : String) (args : List Sexp) (impl : Sexp) :
     Option Verdict :=
   match tag, args with
@@ -698,6 +802,7 @@ def c13Ext (component : String → List Sexp → Sexp → Option Verdict) (tag :
     component inner (← adaptArgs (← optFloat? s) (← optFloat? r) inner ia) impl
   | "mutdefault", kind :: fail :: pops => do
     mutDefault (← nat? kind) (← nat? fail) (← pops.mapM (popOf nats?)) impl
+  | "state", _ => stateDispatch args impl
   | _, _ => component tag args impl
 
 def c13 (input implOut : Sexp) : Option Verdict :=
